@@ -159,3 +159,48 @@ def a_link_event_names_the_port_on_each_of_its_two_switches(b):
     "added_and_removed_are_complementary": lambda res: res[1] is True and res[2] is False,
     "ends_and_reversal": lambda res: res[3] == ((d1, p1), (d2, p2)) and res[4] == (d2, p2, d1, p1) and res[5] == (d1, p1, d2, p2),
   })
+
+
+# ---------------------------------------------------------------- the probe cycle follows the configured link timeout
+# (added 2026-09-25 after seeded change C19_8 created the probe sender before the configured timeout was stored: with
+# --link_timeout below the default send cycle, live links were timed out and re-announced over and over)
+
+class CoreStub(object):
+  def listen_to_dependencies(self, *a, **k):
+    pass
+
+
+class SenderStub(object):
+  pass
+
+
+@unit(P, target=DM + "Discovery.__init__ / send_cycle_time")
+def probes_are_sent_at_least_twice_per_link_timeout(b):
+  timeout = b.real("link_timeout", 0.5, 3600)
+  configured = b.bool("configured")
+  made = []
+  cs = {}
+  if b.mode == "sym":
+    b.st.ghost["sender_args"] = ()
+    def ghost(I, st, f, args, kws):
+      st.ghost["sender_args"] = tuple(st.ghost["sender_args"]) + (tuple(args),)
+    cs = {DM + "LLDPSender": CallSpec("contract", ghost=ghost, returns=lambda I, st, a, k: st.alloc("obj", SenderStub, {}),
+                                      envelope="LLDPSender(send_cycle_time): sends one probe per port per cycle"),
+          "pox.lib.recoco.recoco:Timer": CallSpec("contract", returns=lambda I, st, a, k: None, envelope="starts the periodic expiry sweep"),
+          "contracts.c19_discovery:CoreStub.listen_to_dependencies": CallSpec("contract", envelope="wiring (C08)")}
+    b.st.ghost[("$global", "pox.openflow.discovery", "core")] = b.raw_new(CoreStub)
+  else:
+    D.core = CoreStub()
+    D.LLDPSender = lambda cycle, *a, **k: made.append((cycle,)) or SenderStub()
+    D.Timer = lambda *a, **k: None
+  def run():
+    d = Discovery(link_timeout=(timeout if configured else None))
+    return (d._link_timeout, d.send_cycle_time)
+  def sender_cycle():
+    a = G.get("sender_args") if b.mode == "sym" else made
+    return a[0][-1] if len(a) == 1 else None
+  eff = lambda: timeout if configured else 10
+  return Case(run, [], calls=cs, raises={}, ensures={
+    "the_configured_timeout_is_the_one_links_expire_after": lambda res: res[0] == eff(),
+    "one_probe_sender_is_created_with_half_the_effective_timeout_as_its_cycle": lambda res: sender_cycle() == eff() / 2.0 and res[1] == eff() / 2.0,
+  })
